@@ -9,7 +9,8 @@ RULE = ("A case is a generated machine (1-5 balls; switch- or entrance-counted t
         "max_eject_attempts; device order), per-device lists of physical eject outcomes (leaves and arrives, arrives "
         "late, falls back, too weak) and a timed history of requests (add_ball, request_ball, eject, eject_all, "
         "collect) and physics (drains, lock shots, playfield switch hits, plunges, balls bouncing out of an idle "
-        "device, a ball knocking on the entrance of a full device). Non-trivial = at least one eject anomaly, "
+        "device, a ball knocking on the entrance of a full device); sub-check 'game' adds the game mode, a generated "
+        "ball save and multiball and uses only player/physics operations. Non-trivial = at least one eject anomaly, "
         "overlapping movement, lock entry, bounce or >= 3 coil pulses reacted to by the world. Distinct = case hash.")
 ASSUMPTIONS = [
     "balls are never created or destroyed; switches are clean (no bounce below the count delays)",
@@ -18,6 +19,13 @@ ASSUMPTIONS = [
     "late arrivals stay below ball_missing_timeout",
     "balls bounce out of a device only while the whole machine is at rest",
     "'at rest' = no ball in transit, no pending world event and 75 s of virtual quiet without a coil pulse",
+    "no other ball hits a playfield switch while a failed eject to the playfield awaits MPF's verdict (MPF cannot "
+    "tell which ball hit the switch); such hits are held back and counted",
+    "a late ball towards a mechanical plunger arrives within the plunger's own eject timeout + 2.5 s",
+    "counts of a device which reported itself broken are not compared with the world; the history ends there",
+    "sub-check 'calm': a ball does not get into a device while that device's own eject is unconfirmed, launcher "
+    "has one switch",
+    "sub-check 'game': no harness-made lock claims; multiball locks, ball holds, tilt are not configured",
 ]
 
 
